@@ -1380,7 +1380,22 @@ pub fn run(out: &mut crate::out::Out, tier: &str, rng: &mut Rng) {
         let nfiles = 1 + rng.below(5);
         let adversarial = i % 3 == 2;
         let externs: &[&str] = if i % 5 == 4 { &["PathBuf", "Uuid", "DocId"] } else { &[] };
-        let p = random_project(rng, nfiles, adversarial, externs);
+        let mut p = random_project(rng, nfiles, adversarial, externs);
+        if i % 10 == 9 {
+            // the project whose foreign `DocId` will be mapped onto one of its own types gets a command that takes that type
+            // directly (so that it is certainly declared: the mapping must not be what makes the bindings dangle)
+            let target: Option<String> = arr(&p, "files").iter().flat_map(|f| arr(f, "items"))
+                .filter(|it| (s(it, "k") == "struct" && s(it, "shape") != "tuple" || s(it, "k") == "enum")
+                    && arr(it, "attrs").iter().any(|a| { let t = s(a, "text"); t.starts_with("derive(") && (t.contains("Serialize") || t.contains("Deserialize")) })
+                    && !it.get("lifetime").and_then(|x| x.as_bool()).unwrap_or(false))
+                .map(|it| s(&it, "name")).filter(|n| n.is_ascii() && n.chars().next().map_or(false, |c| c.is_ascii_uppercase())).last();
+            if let (Some(t), Some(f0)) = (target, p.get_mut("files").and_then(|x| x.as_array_mut()).and_then(|a| a.iter_mut().find(|f| f.get("items").is_some() && s(f, "path").ends_with(".rs") && !s(f, "path").starts_with("target") && !s(f, "path").starts_with(".git")))) {
+                if let Some(items) = f0.get_mut("items").and_then(|x| x.as_array_mut()) {
+                    items.push(json!({"k": "fn", "name": "uses_mapping_target", "attrs": [attr("tauri::command")], "vis": "pub", "async": false,
+                        "params": [value_param("target_value", &RTy::Named(t), vec![])], "ret": null, "body": []}));
+                }
+            }
+        }
         for mode in ["none", "zod"] {
             let cfg = match i % 5 {
                 0 => json!({"mode": mode}),
@@ -1391,6 +1406,13 @@ pub fn run(out: &mut crate::out::Out, tier: &str, rng: &mut Rng) {
                     // every other time the foreign `DocId` is mapped onto the name of a type the project itself defines
                     let own: Vec<String> = arr(&p, "files").iter().flat_map(|f| arr(f, "items")).filter(|it| s(it, "k") == "struct" || s(it, "k") == "enum")
                         .map(|it| s(&it, "name")).filter(|n| n.is_ascii() && n.chars().next().map_or(false, |c| c.is_ascii_uppercase())).collect();
+                    // (only a type that some command takes directly as a parameter: it is certainly declared, so that the
+                    // mapping does not make the bindings refer to a name nobody declares - that would be the configuration's
+                    // doing, not the tool's)
+                    let used: Vec<String> = arr(&p, "files").iter().flat_map(|f| arr(f, "items")).filter(|it| s(it, "k") == "fn"
+                            && arr(it, "attrs").iter().any(|a| { let t = s(a, "text"); t == "tauri::command" || t == "command" }))
+                        .flat_map(|it| arr(&it, "params")).filter(|q| s(q, "kind") == "value").map(|q| s(&q, "ty_text")).collect();
+                    let own: Vec<String> = own.into_iter().filter(|n| used.contains(n)).collect();
                     let target = if i % 10 == 9 && !own.is_empty() { own[own.len() - 1].clone() } else { "string".to_string() };
                     json!({"mode": mode, "mappings": {"PathBuf": "string", "Item1": "number", "Uuid": "string", "DocId": target}})
                 }
